@@ -123,6 +123,14 @@ def nu_stream(seed, nsteps, path=PATH_FEDAVG):
 # ----------------------------------------------------------------------------
 # optimizers
 
+def make_regularizer(reg):
+  """fedjax.core.regularizers.l2_regularizer(reg) (reg * |w|^2), or None for reg = 0."""
+  if not reg:
+    return None
+  from fedjax.core import regularizers
+  return regularizers.l2_regularizer(reg)
+
+
 def make_optimizer(cfg):
   import fedjax
   if cfg['kind'] == 'sgd':
@@ -195,8 +203,9 @@ class RefOpt:
 # ----------------------------------------------------------------------------
 # float64 reference of the definition
 
-def ref_grad(w, data, idxs, nu, prox=None):
-  """Mean over the batch of the per-example gradient (w.x - y) x + nu*ones [+ mu*(w - w_server)]."""
+def ref_grad(w, data, idxs, nu, prox=None, reg=0.0):
+  """Mean over the batch of the per-example gradient (w.x - y) x + nu*ones [+ mu*(w - w_server)]
+  [+ 2*reg*w, the gradient of the L2 regularizer reg*|w|^2, once per batch gradient]."""
   x = np.asarray(data['x'], dtype=np.float64).reshape(-1, D)[idxs]
   y = np.asarray(data['y'], dtype=np.float64)[idxs]
   r = x @ w - y
@@ -204,25 +213,27 @@ def ref_grad(w, data, idxs, nu, prox=None):
   if prox is not None:
     mu, w_server = prox
     g = g + mu * (w - w_server)
+  if reg:
+    g = g + 2.0 * reg * w
   return g
 
 
-def ref_local_train(w0, data, stream, nus, copt, prox_mu=None):
+def ref_local_train(w0, data, stream, nus, copt, prox_mu=None, reg=0.0):
   """Sequential optimizer steps over the client's own batch stream; returns the trained params."""
   opt = RefOpt(copt, D)
   w = np.array(w0, dtype=np.float64)
   w_server = w.copy()
   for idxs, nu in zip(stream, nus):
-    g = ref_grad(w, data, idxs, nu, None if prox_mu is None else (prox_mu, w_server))
+    g = ref_grad(w, data, idxs, nu, None if prox_mu is None else (prox_mu, w_server), reg)
     w = opt.apply(g, w)
   return w
 
 
-def ref_mean_delta(w0, members, copt, prox_mu=None):
+def ref_mean_delta(w0, members, copt, prox_mu=None, reg=0.0):
   """members: list of (n, data, stream, nus).  Example-count weighted mean of (initial - trained);
   zero when no example was seen.  Also returns the per-client deltas."""
   w0 = np.array(w0, dtype=np.float64)
-  deltas = [w0 - ref_local_train(w0, d, s, nus, copt, prox_mu) for _, d, s, nus in members]
+  deltas = [w0 - ref_local_train(w0, d, s, nus, copt, prox_mu, reg) for _, d, s, nus in members]
   tot = float(sum(n for n, _, _, _ in members))
   acc = np.zeros(D)
   for (n, _, _, _), dl in zip(members, deltas):
